@@ -117,6 +117,23 @@ fn render_point(p: &Value) -> (String, String, Vec<String>) {
             }
             (s.join("\n"), e.join("\n"), names)
         }
+        "paramarg" => {
+            // `early`: the template's name sorts before / after the instance's
+            let t = if early { "Aatpl" } else { "Zztpl" };
+            let (s, e) = match p["form"].as_str().unwrap() {
+                "actual_valref" => (format!("four INTEGER ::= 4\n{t} {{INTEGER:max, Elem}} ::= SEQUENCE (SIZE (1..max)) OF Elem\nMarg ::= {t} {{ four, BOOLEAN }}"),
+                                    "four INTEGER ::= 4\nMarg ::= SEQUENCE (SIZE (1..4)) OF BOOLEAN".to_string()),
+                "dummy_shadow" => (format!("max INTEGER ::= 10\n{t} {{INTEGER:max}} ::= INTEGER (0..max)\nMarg ::= {t} {{ 4 }}"),
+                                   "max INTEGER ::= 10\nMarg ::= INTEGER (0..4)".to_string()),
+                "dummy_constrained" => (format!("{t} {{T}} ::= SEQUENCE {{ a T (0..5), b BOOLEAN }}\nMarg ::= {t} {{ INTEGER }}"),
+                                        "Marg ::= SEQUENCE { a INTEGER (0..5), b BOOLEAN }".to_string()),
+                "forward" => (format!("{t} {{INTEGER:n, T}} ::= SEQUENCE {{ inner Inner {{ n, T }} }}\nInner {{INTEGER:m, U}} ::= SEQUENCE (SIZE (1..m)) OF U\nMarg ::= {t} {{ 3, BOOLEAN }}"),
+                              "Marg ::= SEQUENCE { inner SEQUENCE (SIZE (1..3)) OF BOOLEAN }".to_string()),
+                _ => (format!("{t} {{INTEGER:max, Elem}} ::= SEQUENCE (SIZE (1..max)) OF Elem\nMarg ::= {t} {{ 4, NULL }}"),
+                      "Marg ::= SEQUENCE (SIZE (1..4)) OF NULL".to_string()),
+            };
+            (s, e, vec!["Marg".into()])
+        }
         "select" => {
             let nalts = p["nalts"].as_u64().unwrap() as usize;
             let sel = p["sel"].as_u64().unwrap() as usize;
@@ -157,6 +174,9 @@ fn render_point(p: &Value) -> (String, String, Vec<String>) {
             let val = format!("{vname} INTEGER ::= 9");
             let (s, e) = match p["where"].as_str().unwrap() {
                 "upper" => (format!("Mvr ::= INTEGER (0..{vname})"), "Mvr ::= INTEGER (0..9)".to_string()),
+                // the referenced value is itself given by reference (mmlim sorts between aalim and zzlim)
+                "chain" => (format!("mmlim INTEGER ::= {vname}\nMvr ::= INTEGER (0..mmlim)"), "mmlim INTEGER ::= 9\nMvr ::= INTEGER (0..9)".to_string()),
+                "chain_size" => (format!("mmlim INTEGER ::= {vname}\nMvr ::= OCTET STRING (SIZE (1..mmlim))"), "mmlim INTEGER ::= 9\nMvr ::= OCTET STRING (SIZE (1..9))".to_string()),
                 "lower" => (format!("Mvr ::= INTEGER ({vname}..20)"), "Mvr ::= INTEGER (9..20)".to_string()),
                 "single" => (format!("Mvr ::= INTEGER ({vname})"), "Mvr ::= INTEGER (9)".to_string()),
                 "size" => (format!("Mvr ::= OCTET STRING (SIZE (1..{vname}))"), "Mvr ::= OCTET STRING (SIZE (1..9))".to_string()),
